@@ -50,9 +50,12 @@ UNPROVED = ["no_panic_full (∀ bs, every entry point returns ok/err): false on 
             "listed findings F12-panic-csblob.parseCodeDirectory, F12-panic-machos.PatchSignature); proved: scan_no_panic, "
             "parseCodeDirectory_panic_only_if, parseCodeDirectory_no_panic_of_fit",
             "terminates_full for comdoc chain walks: false (no visited set): listed as known findings, not modelled",
-            "xar_no_panic_full / xar_alloc_bounded_full / xar_patch_entries_bounded_full: false on the unchanged tree (xar_open_panic_iff, "
-            "xar_alloc_request_not_bounded_by_file, xar_patch_entries_unbounded; listed findings F12-panic-xar.Open, F13-alloc-xar.Open, "
-            "F13-alloc-xar.Sign); proved: xar_verify_no_new_panic, xar_sign_no_panic, xar_open_no_diverge"]
+            "xar: allocation bounded by the INPUT LENGTH (the C11 oracle 64 MiB + 64*len) is false for xar.Open: the inflated TOC is bounded by "
+            "the declared size <= 10^8, a constant (listed finding F13-alloc-xar.Open-declared-size); proved for the current tree: "
+            "xar_open_never_panics, xar_verify_no_new_panic, xar_sign_no_panic, xar_open_no_diverge, xar_alloc_bounded, "
+            "xar_sign_patch_entries_le; about the tree before a62cce4 / 5d6eee4: xar_open_panic_iff_orig, "
+            "xar_alloc_request_not_bounded_by_file_orig, xar_patch_entries_unbounded_orig (F12-panic-xar.Open, F13-alloc-xar.Open, "
+            "F13-alloc-xar.Sign: fixed)"]
 IMPL_PARALLEL = 12
 IMPL_TIMEOUT = 3000
 
